@@ -12,9 +12,10 @@ from . import gen as G
 
 
 class Pair:
-    __slots__ = ("cls", "layout", "params", "ret", "a", "b", "family", "expect")
+    __slots__ = ("cls", "layout", "params", "ret", "a", "b", "family", "expect", "alg")
 
-    def __init__(self, family, item, layout, params, ret, a, b, expect="equal"):
+    def __init__(self, family, item, layout, params, ret, a, b, expect="equal", alg=None):
+        self.alg = alg          # in-tool specification of engine_e3 (the `b` side then repeats `a`)
         self.family = family
         self.cls = family + "|" + item
         self.layout = layout
@@ -140,6 +141,25 @@ class Specs:
                 a_body, b_body = call, spec
             item = r.sym.split("__", 2)[2]
             out.append(Pair("E-wrap", item, L, params, ret, a_body, b_body))
+        # Sum / Product over iterators of fixed length 0..3 (by value and by reference): with a constant length the
+        # fold is unrolled, so the pair is loop-free; the specification is the left-to-right chain of wrapping
+        # operations, the empty sum is 0 and the empty product is 1 reduced modulo 2^width
+        ps3 = "a0: %s, a1: %s, a2: %s" % (W, W, W)
+        for tr, op, unit in (("Sum", "wrapping_add", "<%s>::from_bits(0)" % L),
+                             ("Product", "wrapping_mul", "<%s>::wrapping_from_num(1)" % L)):
+            m = tr.lower()
+            for n in range(4):
+                xs = ", ".join("a%d" % i for i in range(n))
+                spec = unit if n == 0 else "a0.0"
+                for i in range(1, n):
+                    spec = "%s.%s(a%d.0)" % (spec, op, i)
+                use = " ".join("let _ = a%d;" % i for i in range(n, 3))
+                out.append(Pair("E-wrap", "iter_%s_fixed%d_v" % (tr, n), L, ps3, W,
+                                "{ %s let xs: [%s; %d] = [%s]; xs.iter().copied().%s::<%s>() }" % (use, W, n, xs, m, W),
+                                "{ %s Wrapping(%s) }" % (use, spec)))
+                out.append(Pair("E-wrap", "iter_%s_fixed%d_r" % (tr, n), L, ps3, W,
+                                "{ %s let xs: [%s; %d] = [%s]; xs.iter().%s::<%s>() }" % (use, W, n, xs, m, W),
+                                "{ %s Wrapping(%s) }" % (use, spec)))
         return out
 
     def _wrap_spec(self, r, lay):
@@ -544,8 +564,37 @@ class Specs:
         # multiplication: exact product in the double-width type, shifted toward minus infinity
         p = "(((a0.to_bits() as %s).wrapping_mul(a1.to_bits() as %s)) >> %d)" % (W, W, f)
         out.append(Pair("E-mul", "wrapping_mul", L, ps, L, "a0.wrapping_mul(a1)", "%s(%s as %s)" % (fb, p, ity)))
+        # "the shifted product does not fit": a plain range test on the exact double-width value
+        if lay.signed:
+            mfits = "q < -(1 << %d) || q > (1 << %d) - 1" % (n - 1, n - 1)
+        else:
+            mfits = "q > (1 << %d) - 1" % n
         out.append(Pair("E-mul", "overflowing_mul", L, ps, "(%s, bool)" % L, "a0.overflowing_mul(a1)",
-                        "{ let q = %s; (%s(q as %s), %s) }" % (p, fb, ity, fits)))
+                        "{ let q: %s = %s; (%s(q as %s), %s) }" % (W, p, fb, ity, mfits)))
+        return out
+
+    # ------------------------------------------------------------------ E-alg
+    def alg(self, lay):
+        """128-bit multiplication against the bit slice [F, F+128) of the exact 256-bit product and the exact range
+        test, by the limb algebra of engine_e3 (no Rust type can state that specification)"""
+        out = []
+        if lay.width != 128 or lay.frac == 0:
+            return out
+        L = lay.name
+        ps = "a0: %s, a1: %s" % (L, L)
+        spec = ("mul", lay.signed, lay.width, lay.frac)
+        out.append(Pair("E-alg", "wrapping_mul_value", L, ps, L, "a0.wrapping_mul(a1)", "a0.wrapping_mul(a1)",
+                        alg=spec + ("value",)))
+        out.append(Pair("E-alg", "overflowing_mul_value", L, ps, "(%s, bool)" % L, "a0.overflowing_mul(a1)",
+                        "a0.overflowing_mul(a1)", alg=spec + ("value",)))
+        out.append(Pair("E-alg", "overflowing_mul_flag", L, ps, "(%s, bool)" % L, "a0.overflowing_mul(a1)",
+                        "a0.overflowing_mul(a1)", alg=spec + ("flag",)))
+        # controls: the same bodies against a wrong slice / a wrong threshold must not be accepted
+        wrong = ("mul", lay.signed, lay.width, lay.frac - 1 if lay.frac > 1 else lay.frac + 1)
+        out.append(Pair("E-alg", "CONTROL_wrong_slice", L, ps, L, "a0.wrapping_mul(a1)", "a0.wrapping_mul(a1)",
+                        expect="different", alg=wrong + ("value",)))
+        out.append(Pair("E-alg", "CONTROL_wrong_threshold", L, ps, "(%s, bool)" % L, "a0.overflowing_mul(a1)",
+                        "a0.overflowing_mul(a1)", expect="different", alg=wrong + ("flag",)))
         return out
 
     # ------------------------------------------------------------------ E-codec
@@ -763,6 +812,13 @@ class Specs:
             spec = "(((a0.to_bits() as %s) >> 127 >> 1) as %s)" % (big, ity)
         out.append(Pair("E-conv", "wrapping_to_num_int", "%s->%s" % (L, ity), "a0: %s" % L, ity,
                         "a0.wrapping_to_num::<%s>()" % ity, spec))
+        # the infallible conversions to an integer (they exist only for pairs whose bounds hold; absent impls do
+        # not type-check and are dropped): the value with the fraction discarded toward minus infinity
+        out.append(Pair("E-conv", "LossyFrom_to_int", "%s->%s" % (L, ity), "a0: %s" % L, ity,
+                        "<%s as substrate_fixed::traits::LossyFrom<%s>>::lossy_from(a0)" % (ity, L), spec))
+        if f == 0:
+            out.append(Pair("E-conv", "From_to_int", "%s->%s" % (L, ity), "a0: %s" % L, ity,
+                            "<%s as core::convert::From<%s>>::from(a0)" % (ity, L), spec))
         sbig = "i128" if ity.startswith("i") else "u128"
         if f < 128:
             spec2 = "<%s>::from_bits(((a0 as %s) << %d) as %s)" % (L, sbig, f, lay.inner)
